@@ -17,6 +17,8 @@ type NCDriver struct {
 	Pending []string // edits accepted into the candidate, not yet committed
 	Running []string // edits that reached running
 	Dead    bool
+	// WarnOnEdit makes a successful edit-config reply carry an rpc-error of severity warning
+	WarnOnEdit bool
 	// Fault returns the error to inject for the n-th call of the given kind ("" = none; "eof" = dead connection).
 	Fault func(call string, n int) string
 	count map[string]int
@@ -102,6 +104,16 @@ func (d *NCDriver) EditConfig(target string, config string) (*nctypes.NetconfRes
 		d.Pending = append(d.Pending, config)
 	} else {
 		d.Running = append(d.Running, config)
+	}
+	if d.WarnOnEdit {
+		doc := etree.NewDocument()
+		rep := doc.CreateElement("rpc-reply")
+		re := rep.CreateElement("rpc-error")
+		re.CreateElement("error-type").SetText("application")
+		re.CreateElement("error-severity").SetText("warning")
+		re.CreateElement("error-message").SetText("value will take effect after reboot")
+		rep.CreateElement("ok")
+		return nctypes.NewNetconfResponse(doc), nil
 	}
 	return okDoc(), nil
 }
